@@ -785,7 +785,26 @@ def rand_periods(rng, lo, hi) -> list:
         l = l[::-1]
     elif q < 0.24 and l:
         l = l + [l[0]]
+    elif q < 0.32:                       # round 5: a Span with a larger step, ascending or descending
+        l = l[::rng.choice([3, 4, -2, -3])]
+    elif q < 0.42 and l:                 # round 5: hand-picked periods, in order or not
+        l = rng.sample(l, rng.randint(1, len(l)))
+        if rng.random() < 0.6:
+            l.sort()
     return l
+
+
+def _periods_shape(l) -> str:
+    if len(l) <= 1:
+        return "empty" if not l else "single"
+    d = [b - a for a, b in zip(l, l[1:])]
+    if len(set(l)) < len(l):
+        return "with-repeated-period"
+    if all(x == 1 for x in d):
+        return "contiguous"
+    if len(set(d)) == 1:
+        return "stepped" if d[0] > 0 else "descending" if d[0] == -1 else "descending-stepped"
+    return "hand-picked" if all(x > 0 for x in d) else "hand-picked-unordered"
 
 
 def gen_csv_case(rng) -> dict:
@@ -1069,6 +1088,8 @@ def correspondence(ctx) -> CorrResult:
         _bump(d["options"], "names" if case["names"] is not None else "all-names")
         _bump(d["options"], "span" if case["span"] else "frequency_span" if case["fspan"] else "default-span")
         _bump(d["options"], "description_row" if case["desc"] else "no-description_row")
+        for l_ in ([case["span"][1]] if case["span"] else [l_ for _, l_ in (case["fspan"] or []) if l_ is not None]):
+            _bump(d.setdefault("selected_periods", {}), _periods_shape(l_))
         ne = sum(1 for _, it_ in case["db"] if it_["k"] == "ser" and it_["start"] is None)
         nd = sum(1 for _, it_ in case["db"] if it_["k"] == "ser" and it_["start"] is not None)
         _bump(d.setdefault("empty_series", {}), "none" if not ne else "only-empty-series" if not nd else "with-empty-series")
